@@ -4,7 +4,8 @@ Runs under /venv/bin/python on the real code.  Contract monitored (taken from th
 
   * a reference state machine of the facade keeps (path, entry cell, safety) as last set; every get / write must deliver
     T(path, entry, safety) where T is what a FRESH parser in a FRESH process (PYTHONHASHSEED=0) gives for exactly these
-    settings (text, or a raise of the same class);
+    settings (text, or a raise of the same class and message); the reference processes are forked copies of a process that
+    has imported the library and translated nothing, the hash-seed / process checks use real fresh interpreters;
   * repeated get / write without a setter in between deliver the identical outcome (also when the outcome is a raise);
   * the written file's bytes are the utf-8 bytes of the returned text (also over an older, longer file);
   * T itself "corresponds" to the workbook, entry cell and safety setting: independent oracle built from the planted
@@ -296,12 +297,26 @@ def _child_main():
 _CHILD = 'import sys; sys.path[:0]=[%r,%r]; sys.dont_write_bytecode=True; from pv.nat import mon_c09 as m; m._child_main()'
 
 
+_TREE = [lib.REPO]
+
+
+def _snapshot(d):
+    """The library is copied once per run and every process of the run imports the copy, so that an edit of the repository
+    while the monitor runs cannot make two processes of one comparison run different code."""
+    dst = os.path.join(d, 'tree')
+    shutil.copytree(os.path.join(lib.REPO, 'excel2pycl'), os.path.join(dst, 'excel2pycl'),
+                    ignore=shutil.ignore_patterns('__pycache__', '*.pyc'))
+    _TREE[0] = dst
+    if 'excel2pycl' not in sys.modules:
+        sys.path.insert(0, dst)
+
+
 def _spawn(job, hashseed=0, timeout=900):
     env = dict(os.environ)
-    env.update({'E2PYCL_REPO': lib.REPO, 'PYTHONPATH': lib.REPO + os.pathsep + VERIF, 'PYTHONDONTWRITEBYTECODE': '1',
+    env.update({'E2PYCL_REPO': _TREE[0], 'PYTHONPATH': _TREE[0] + os.pathsep + VERIF, 'PYTHONDONTWRITEBYTECODE': '1',
                 'PYTHONWARNINGS': 'ignore', 'PYTHONHASHSEED': str(hashseed)})
     try:
-        p = subprocess.run([sys.executable, '-W', 'ignore', '-c', _CHILD % (lib.REPO, VERIF)], input=json.dumps(job),
+        p = subprocess.run([sys.executable, '-W', 'ignore', '-c', _CHILD % (_TREE[0], VERIF)], input=json.dumps(job),
                            capture_output=True, text=True, env=env, timeout=timeout)
     except subprocess.TimeoutExpired:
         return {'crash': 'timeout'}
@@ -656,7 +671,7 @@ def _all_hist_configs():
            [('uni', 'k1', s) for s in (None, True, False)]
 
 
-def _raise_histories(table):
+def _raise_histories(table, both_orders=True):
     """every raising configuration x three earlier states: reach it, then get, get, write, get, repair, get"""
     out = []
     priors = [[], [['P', 'base'], ['G']], [['P', 'twin'], ['E', 'ob1', 'shared'], ['S', 0], ['G']]]
@@ -664,7 +679,7 @@ def _raise_histories(table):
         if table.get(c)['k'] != 'raise' or c[1] not in (None, 'c1s', 'nosheet', 'c2', 'ob1'):
             continue
         for pr in priors:
-            for perm in ([0, 1, 2], [2, 1, 0]):
+            for perm in (([0, 1, 2], [2, 1, 0]) if (both_orders or not pr) else ([0, 1, 2],)):
                 st = _setters(c)
                 st = [st[i] for i in perm if i < len(st)]
                 out.append(pr + st + [['G'], ['G'], ['W', 0], ['G'], ['P', 'base'], ['E', 'c1s', 'shared'], ['S', 0], ['G'], ['W', 0]])
@@ -674,11 +689,11 @@ def _raise_histories(table):
 SLOT_WBS = ['base', 'twin', 'unsafe', 'malformed', 'uni']
 
 
-def _slot_histories():
+def _slot_histories(wbs):
     """the workbook stored at one path is replaced and the same path is set again"""
     out = []
-    for a in SLOT_WBS:
-        for b in SLOT_WBS:
+    for a in wbs:
+        for b in wbs:
             if a == b:
                 continue
             for e in (None, 'c1s', 'ob1', 'g1'):
@@ -837,22 +852,12 @@ def _check(name, bound, rule, exhaustive, evals, distinct, fails, samples, t0):
             'failures': list(fails.values())[:25], 'samples': samples[:3], 'seconds': round(time.time() - t0, 2)}
 
 
-def _compare_seq(cfgs, res, table, fails, key, what, payload):
-    n = 0
-    for c, o in zip(cfgs, res):
-        n += 1
-        e = table.get(c)
-        if not _same(o, e):
-            fails.setdefault(key, {'key': key, 'what': f'{what}: config {c} -> {_short(o)}; fresh process, hash seed 0 gives {_short(e)}',
-                                   'replay': payload})
-    return n
-
-
 def run(tier='quick', seed=0):
     thorough = tier == 'thorough'
     rng = random.Random(seed)
     checks = []
     with lib.scratch() as d:
+        _snapshot(d)
         paths = _build(d, wide=True)
         fam = _family_specs()
         table = Table(paths)
@@ -877,30 +882,30 @@ def run(tier='quick', seed=0):
 
         # ---------------- facade histories
         t0 = time.time()
-        lens = [5, 5, 5, 5, 5, 5] if thorough else [4, 3, 3, 3, 3, 3]
+        lens = [5, 5, 4, 4, 4, 5] if thorough else [4, 3, 3, 3, 3, 3]
         hs = _exhaustive_histories(lens)
         checks.append(_sweep(
             'C09.monitor.history_exhaustive', hs, paths, d, table,
             f'{len(SETUPS)} set-up prefixes (fresh parser; cached unsafe text with safety off; cached entry translation; cached with '
-            f'entry+safety on; a raise with nothing cached; cached text then a raise on a missing file) x every sequence of 1..{lens[0]} (fresh parser) resp. 1..{lens[1]} (other prefixes) calls '
+            f'entry+safety on; a raise with nothing cached; cached text then a raise on a missing file) x every sequence of 1..n calls, n = {lens} per prefix, '
             f'over {_fmt(ALPHA)} that ends in get or write = {len(hs)} histories on one Parser each (entry Cell objects re-used across workbooks)',
             'one evaluation = one get / write compared with a fresh parser in a fresh process configured with the settings in force '
             '(text sha256 or class+message of the raise; a write: sha256 of the file bytes; a repeated call also against the previous '
             'call). distinct = distinct (previous settings, setters since, settings, call) with a cached result present. Every order of '
             'the three setters, enable twice, raise-then-repeat are members of the scope', True, t0))
         t0 = time.time()
-        hs = _sampled_histories(rng, 40000 if thorough else 2500)
+        hs = _sampled_histories(rng, 40000 if thorough else 2000)
         checks.append(_sweep(
             'C09.monitor.history_sampled', hs, paths, d, table,
             f'{len(hs)} seeded random histories of 4..10 calls over {len(HIST_WBS) + 1} paths (incl. malformed formula, unicode, missing, not a '
             f'workbook, none) x {len(HIST_ENTRIES)} entry cells (shared or fresh Cell object) x enable/disable x get x write to 2 files',
             'as history_exhaustive', False, t0))
         t0 = time.time()
-        hs = _raise_histories(table)
+        hs = _raise_histories(table, thorough)
         checks.append(_sweep(
             'C09.monitor.raise_then_repeat', hs, paths, d, table,
             f'every raising setting (unsafe+safety, missing file, not a workbook, malformed formula, unknown sheet, no path; entries none/c1s/'
-            f'nosheet/c2/ob1) x 3 earlier states (fresh, cached whole-file text, cached entry text) x 2 setter orders = {len(hs)} histories: '
+            f'nosheet/c2/ob1) x 3 earlier states (fresh, cached whole-file text, cached entry text) x setter orders (both; quick: both only from fresh) = {len(hs)} histories: '
             'reach it, get, get, write, get, then set path+entry+safety to a good setting, get, write',
             'as history_exhaustive', True, t0))
         t0 = time.time()
@@ -913,10 +918,11 @@ def run(tier='quick', seed=0):
             'one evaluation = file bytes (sha256) == utf-8 bytes of the reference text == returned text', True, t0))
 
         t0 = time.time()
-        hs = _slot_histories()
+        swbs = SLOT_WBS if thorough else ['base', 'twin', 'unsafe']
+        hs = _slot_histories(swbs)
         checks.append(_sweep(
             'C09.monitor.same_path_new_workbook', hs, paths, d, table,
-            f'every ordered pair of 5 workbooks x entries none/c1s/ob1/g1 x safety default/off x get/write x 2 shapes = {len(hs)} histories: '
+            f'every ordered pair of {len(swbs)} workbooks x entries none/c1s/ob1/g1 x safety default/off x get/write x 2 shapes = {len(hs)} histories: '
             'store workbook a at a path, set the path, get (or write), store workbook b at the same path, set the same path again, get / write',
             'as history_exhaustive (the setting "path" denotes the workbook stored there when the path was last set; calls made after the '
             'file was replaced without setting the path again are not judged)', True, t0))
@@ -925,7 +931,7 @@ def run(tier='quick', seed=0):
         t0 = time.time()
         cfgs = _det_configs(True)
         table.need(cfgs)
-        seeds = [rng.randrange(1, 2 ** 32 - 1) for _ in range(40 if thorough else 10)] + [1, 2, 3]
+        seeds = [rng.randrange(1, 2 ** 32 - 1) for _ in range(40 if thorough else 5)] + [1, 2, 3]
         orders = []
         for s in seeds:
             o = list(cfgs)
@@ -973,8 +979,8 @@ def run(tier='quick', seed=0):
         # repeated blocks: A B A
         seqs += [per(a) + per(b) + per(a) for a in wbs for b in wbs if a != b]
         # one path whose workbook is replaced between two translations (new Parser each)
-        seqs += [[('slot:' + a, e, False), ('slot:' + b, e, False), ('slot:' + a, e, False)] for a in SLOT_WBS for b in SLOT_WBS if a != b
-                 for e in (None, 'ob1')]
+        seqs += [[('slot:' + a, e, False), ('slot:' + b, e, False), ('slot:' + a, e, False)] for a in swbs for b in swbs if a != b
+                 for e in ((None, 'ob1') if thorough else (None,))]
         table.need({c for s in seqs for c in s})
         res = _spawn_many(_seq_jobs(paths, seqs, d))
         fails, n = {}, 0
@@ -997,7 +1003,7 @@ def run(tier='quick', seed=0):
         checks.append(_check(
             'C09.monitor.process_history',
             f'all {len(list(itertools.permutations(wbs)))} orders of {wbs} (3 settings each: whole file, cross-sheet entry, entry on a sheet whose '
-            f'index differs between workbooks) + all A,B,A blocks + (workbook a, b, a stored at one path) for all pairs of 5 workbooks x 2 entries = {len(seqs)} processes, each translating its '
+            f'index differs between workbooks) + all A,B,A blocks + (workbook a, b, a stored at one path) for all pairs of {len(swbs)} workbooks x {2 if thorough else 1} entries = {len(seqs)} processes, each translating its '
             'sequence with a new Parser per setting',
             'one evaluation = outcome of the i-th translation in the process == outcome of the same setting in a fresh process',
             True, n, len(seqs), fails, [{'sequence': [list(c) for c in seqs[0][:4]]}], t0))
@@ -1074,6 +1080,7 @@ def replay(payload):
         return {'fails': False, 'text': 'nothing to replay'}
     k = payload.get('kind')
     with lib.scratch() as d:
+        _snapshot(d)
         paths = _build(d, wide=True)
         table = Table(paths)
         if k == 'history':
